@@ -413,6 +413,13 @@ func (w *c13World) script(sb *submitter, c *rtCall) *served {
 			o.Body, _ = w.goodBody(sb) // a perfectly good SCT under a status that is not 200
 		}
 		o.Kind = fmt.Sprintf("other/%d", o.Status)
+		if t.Chance(1, 3) {
+			// RFC 7231 allows Retry-After on any response; the statement still says "every other status
+			// immediately": the header must not turn a final status into a retried one
+			o.RA = []string{"1", "0", "30", time.Now().Add(20 * time.Second).UTC().Format(http.TimeFormat)}[t.Intn(4)]
+			o.Header.Set("Retry-After", o.RA)
+			o.Kind += "+retry-after"
+		}
 	case "net.err":
 		o.NetErr = true
 	case "net.cut":
